@@ -168,7 +168,10 @@ def handle : Handler := fun s =>
       let o : Obs := { fvarOk, required, mono, strictFrom := strict, agree, nodesAgree, instOk, worst }
       let oracleAll := o.fvarOk && o.required && o.mono && o.agree && o.nodesAgree && o.instOk
       let oCls :=
-        if !o.fvarOk then "fvar-bounds" else if !o.required then "missing-required-entry"
+        if !o.fvarOk then "fvar-bounds"
+        else if !o.required then
+          (if (mn != df && conv.toDesign mn == conv.toDesign df) || (mx != df && conv.toDesign mx == conv.toDesign df)
+           then "missing-required-entry" else "missing-required-entry-nonflat")
         else if !o.mono then "segmap-not-monotone" else if !o.agree then "avar-disagrees"
         else if !o.nodesAgree then "avar-disagrees-at-node" else if !o.instOk then "instance-out-of-range" else ""
       let nNodes := iIter.length
@@ -272,7 +275,7 @@ def handleE2E : Handler := fun s =>
     let segsOf (k : Nat) : List (Int × Int) := match iAvar with
       | none => []
       | some ms => ms.getD k []
-    let perAxis : List (Bool × Bool × Bool × Bool × Rat) := (axes.zip (iFvar.zip (List.range axes.length))).map fun (a, fv, k) =>
+    let perAxis : List (Bool × Bool × Bool × Bool × Rat × Bool) := (axes.zip (iFvar.zip (List.range axes.length))).map fun (a, fv, k) =>
       let (fMin, fDef, fMax) := fv
       let seg := segsOf k
       let segPts := bitsToPts seg
@@ -296,16 +299,21 @@ def handleE2E : Handler := fun s =>
         (ratAbs (got - want), bound)
       let agree := errs.all fun (e, b) => e ≤ b
       let worst : Rat := errs.foldl (fun acc (e, _) => ratMax acc e) (0 : Rat)
-      (fvarOk, required, mono, agree, worst)
+      -- F-C08-1 (known finding) is exactly: a required entry is missing AND a whole side of the axis is flat in design space
+      let flatSide := (a.mn != a.df && dmin == ddef) || (a.mx != a.df && dmax == ddef)
+      (fvarOk, required, mono, agree, worst, required || flatSide)
     let axesCount := iFvar.length == axes.length
     let fvarOk := axesCount && perAxis.all (·.1)
     let required := perAxis.all (·.2.1)
     let mono := perAxis.all (·.2.2.1)
     let agree := perAxis.all (·.2.2.2.1)
-    let worst : Rat := perAxis.foldl (fun acc p => ratMax acc p.2.2.2.2) (0 : Rat)
+    let worst : Rat := perAxis.foldl (fun acc p => ratMax acc p.2.2.2.2.1) (0 : Rat)
+    let reqFlatOnly := perAxis.all (·.2.2.2.2.2)
     let instOk := iInst.all fun cs => (cs.zip iFvar).all fun (c, (lo, _, hi)) => lo ≤ c && c ≤ hi
     let oracle := fvarOk && required && mono && agree && instOk
-    let oCls := if !fvarOk then "fvar-bounds" else if !required then "missing-required-entry" else if !mono then "segmap-not-monotone"
+    let oCls := if !fvarOk then "fvar-bounds"
+      else if !required then (if reqFlatOnly then "missing-required-entry" else "missing-required-entry-nonflat")
+      else if !mono then "segmap-not-monotone"
       else if !agree then "avar-disagrees" else if !instOk then "instance-out-of-range" else ""
     let flat := axes.any fun a => (a.nodes.zip (a.nodes.drop 1)).any fun (p, q) => p.2 == q.2
     let tags := [s!"axes{axes.length}", if iAvar.isSome then "avar-present" else "avar-absent", s!"instances{iInst.length}"] ++
